@@ -25,8 +25,10 @@ Proof. reflexivity. Qed.
    - handleConn does numInvoke++ BEFORE the handler is spawned / sent to JobQueue (LRead counts, then LEnqueue/LStart);
    - `allClosed` starts true and is only ever cleared (LPollReturn needs every connection closed);
    - sendCloseMsg's Range callback always returns true (LPollBegin notifies each connection on its own);
-   - the handler's first statement defers numInvoke-- (LFinish: response written, then the decrement). *)
+   - the handler's first statement defers numInvoke-- (LFinish: response written, then the decrement);
+   - the receive loop's deferred drain wait has no other exit than numInvoke = 0 (LRecvClose / LRecvGone need busy = []). *)
 Theorem src_step_shape :
   c_c12_closemsg_before_sweep = 1 /\ c_c12_accept_error_continues = 1 /\ c_c12_count_before_dispatch = 1 /\
-  c_c12_allclosed_only_cleared = 1 /\ c_c12_closemsg_range_continues = 1 /\ c_c12_decrement_deferred_in_handler = 1.
+  c_c12_allclosed_only_cleared = 1 /\ c_c12_closemsg_range_continues = 1 /\ c_c12_decrement_deferred_in_handler = 1 /\
+  c_c12_drain_wait_only_exit = 1.
 Proof. repeat split; reflexivity. Qed.
